@@ -28,5 +28,19 @@ if p.returncode != 1:
 meta["checks_run"] = [c for c in meta.get("checks_run", []) if c["check"] != rec["check"]] + [rec]
 json.dump(meta, open(os.path.join(d, "meta.json"), "w"), indent=1)
 print(name, json.dumps(rec)[:600])
-# evidence files written by a run on a mutated tree must not stay behind
-subprocess.call(["git", "-C", VERIF, "checkout", "--", "evidence"], stderr=subprocess.DEVNULL)
+# evidence / replay files written by a run on a mutated tree must not stay behind: witnesses move next to the seed
+import shutil
+st = subprocess.run(["git", "-C", VERIF, "status", "--porcelain", "replays"], capture_output=True, text=True).stdout
+os.makedirs(os.path.join(d, "replays"), exist_ok=True)
+for line in st.splitlines():
+    path = line[3:].strip()
+    full = os.path.join(VERIF, path)
+    if os.path.isdir(full):
+        for f in os.listdir(full):
+            shutil.move(os.path.join(full, f), os.path.join(d, "replays", f))
+        os.rmdir(full)
+    elif os.path.exists(full):
+        shutil.copy(full, os.path.join(d, "replays", os.path.basename(full)))
+        if line.startswith("??"):
+            os.remove(full)
+subprocess.call(["git", "-C", VERIF, "checkout", "--", "evidence", "replays"], stderr=subprocess.DEVNULL)
